@@ -1,4 +1,5 @@
 import AkVerif.Lemmas.TableRender
+import AkVerif.Model.TableFmt
 /-!
 # C12 — tables are rectangular, aligned, width-bounded and account for every record
 
@@ -16,27 +17,28 @@ theorem marks : Gen.C12.dotsMax = 3 ∧ Gen.C12.dotChar = '.' ∧ Gen.C12.sepCha
     Gen.C12.cornerChar = '+' ∧ Gen.C12.dashChar = '-' := by decide
 
 /-- `resize_chunks_list(chunks, n)` has exactly `n` visible characters: the text cut to `n`, or
-padded with blanks -/
+padded with blanks; and `Table.resizeChunks` *is* the `resize_chunks_list` of the `CHText` model (C08) -/
 theorem resize_exact (cs : Chunks) (n : Nat) :
-    (resizeChunks cs n).flatten = (cs.flatten ++ blanks (n - cs.flatten.length)).take n ∧
-    (resizeChunks cs n).flatten.length = n := by
-  refine ⟨resizeChunks_flatten cs n, ?_⟩
+    textOf (resizeChunks cs n) = (textOf cs ++ blanks (n - (textOf cs).length)).take n ∧
+    (textOf (resizeChunks cs n)).length = n ∧
+    CHText.resizeChunks cs (n : Int) = .ok (resizeChunks cs n) := by
+  refine ⟨resizeChunks_flatten cs n, ?_, resizeChunks_eq_chtext cs n⟩
   rw [resizeChunks_flatten, List.length_take, List.length_append, blanks_length]
   omega
 
 /-- `fit_to_width` yields exactly `w` visible characters: the whole text padded on the side the
 alignment asks for, or — when the text is too long — its first `w - min 3 w` characters followed by
-`min 3 w` dots. Nothing else ever gets into a cell. -/
+`min 3 w` dots. Nothing else ever gets into a cell. (`blanks n` is `n` blanks: `blanks_are_blanks`.) -/
 theorem fit_exact (cs : Chunks) (w : Nat) (a : Align) :
-    (fitToWidth cs w a).flatten.length = w ∧
-    (cs.flatten.length ≤ w → (fitToWidth cs w a).flatten =
+    (textOf (fitToWidth cs w a)).length = w ∧
+    ((textOf cs).length ≤ w → textOf (fitToWidth cs w a) =
       match a with
-      | .left => cs.flatten ++ blanks (w - cs.flatten.length)
-      | .right => blanks (w - cs.flatten.length) ++ cs.flatten
-      | .center => blanks ((w - cs.flatten.length) / 2) ++ cs.flatten
-          ++ blanks ((w - cs.flatten.length) - (w - cs.flatten.length) / 2)) ∧
-    (w < cs.flatten.length → (fitToWidth cs w a).flatten =
-      cs.flatten.take (w - min 3 w) ++ List.replicate (min 3 w) '.') := by
+      | .left => textOf cs ++ blanks (w - (textOf cs).length)
+      | .right => blanks (w - (textOf cs).length) ++ textOf cs
+      | .center => blanks ((w - (textOf cs).length) / 2) ++ textOf cs
+          ++ blanks ((w - (textOf cs).length) - (w - (textOf cs).length) / 2)) ∧
+    (w < (textOf cs).length → textOf (fitToWidth cs w a) =
+      (textOf cs).take (w - min 3 w) ++ List.replicate (min 3 w) '.') := by
   rw [fitToWidth_flatten]
   refine ⟨fitSpec_length _ _ _, ?_, ?_⟩
   · intro h
@@ -44,10 +46,15 @@ theorem fit_exact (cs : Chunks) (w : Nat) (a : Align) :
     simp only [h, if_true]
     cases a <;> rfl
   · intro h
-    have : ¬ cs.flatten.length ≤ w := by omega
+    have : ¬ (textOf cs).length ≤ w := by omega
     unfold fitSpec
     simp only [this, if_false]
     rw [marks.1, marks.2.1]
+
+/-- the padding is made of blanks -/
+theorem blanks_are_blanks (n : Nat) : blanks n = List.replicate n ' ' := by
+  have : Gen.C08.padChar = ' ' := by decide
+  simp [blanks, CHText.spaces, this]
 
 /-- Width bounds. After a table has been printed every column has a width `w ≤ max`, and
 `min ≤ w` whenever the configured bounds are consistent (`min ≤ max`); the columns themselves are
@@ -227,7 +234,7 @@ theorem cell_content (t t' : Tbl) (ls : List Line) (h : render t = .ok (t', ls))
           ∀ (j : Nat) (c : Col) (w : Nat), ws[j]? = some (c, w) →
             ∃ v cell, fetch c.field r = .ok v ∧ cellOf c.field.ftype c.modifier v = .ok cell ∧
               (line.text.drop (colOffset (ws.map (·.2)) j + 1)).take w
-                = (fitToWidth cell.1 w cell.2).flatten := by
+                = textOf (fitToWidth cell.1 w cell.2) := by
   obtain ⟨tls, ws, nTitle, body, R⟩ := render_elim h
   refine ⟨tls, ws, nTitle, body, R, ?_⟩
   obtain ⟨hlen, hget⟩ := bodyLines_get _ _ _ _ _ R.body_eq
@@ -247,10 +254,10 @@ theorem cell_content (t t' : Tbl) (ls : List Line) (h : render t = .ok (t', ls))
 
 /-- a default-type cell is `str(value)`, numbers and keywords to the right -/
 theorem cell_default (m : Option (List Char)) (v : Val) (cell : Chunks × Align)
-    (h : cellOf .dflt m v = .ok cell) : cell.1.flatten = v.text ∧ cell.2 = v.align := by
+    (h : cellOf .dflt m v = .ok cell) : textOf cell.1 = v.text ∧ cell.2 = v.align := by
   unfold cellOf at h
   by_cases hm : m = Option.none
-  · simp [hm] at h; subst h; simp [dfltCell]
+  · simp [hm] at h; subst h; simp [dfltCell, textOf, plain]
   · simp [hm] at h
 
 /-- No needless truncation. When a table is printed for the first time (no widths yet), every
@@ -291,7 +298,7 @@ theorem title_content (t t' : Tbl) (ls : List Line) (h : render t = .ok (t', ls)
     ∃ tls ws nTitle body, Rendered t t' ls tls ws nTitle body ∧
       ∀ i, i < nTitle → ∀ (j : Nat) (c : Col) (w : Nat), ws[j]? = some (c, w) →
         ((joinCells (titleCells i ws)).drop (colOffset (ws.map (·.2)) j + 1)).take w
-          = (fitToWidth (titleCell (titleItem c.field i)).1 w (titleCell (titleItem c.field i)).2).flatten := by
+          = textOf (fitToWidth (titleCell (titleItem c.field i)).1 w (titleCell (titleItem c.field i)).2) := by
   obtain ⟨tls, ws, nTitle, body, R⟩ := render_elim h
   refine ⟨tls, ws, nTitle, body, R, ?_⟩
   intro i _ j c w hj
@@ -384,6 +391,71 @@ theorem limits (t t' : Tbl) (ls : List Line) (h : render t = .ok (t', ls)) :
     refine ⟨rfl, ?_⟩
     rw [hst]; simp [printed]
 
+/-- Printing has no memory. Printing a table a second time (a second line iterator, a second
+`plain_text()`) prints exactly the same lines and leaves the table as the first printing left it. -/
+theorem print_twice (t t' : Tbl) (ls : List Line) (h : render t = .ok (t', ls)) :
+    render t' = .ok (t', ls) := render_idem h
+
+/-- Interleaved iterators. However the line iterators of several tables (several of one table
+included) are advanced in turn, every iterator yields exactly the lines of its own table, printed
+alone: no table sees another table's break line, skipped-records line, widths or counts. -/
+theorem interleaved (tables : List Tbl) (iters order : List Nat) (res : List (Nat × List Line))
+    (h : startIters tables iters order [] = .ok res) :
+    ∀ p ∈ res, ∃ ti t, iters[p.1]? = some ti ∧ tables[ti]? = some t ∧ lines t = .ok p.2 :=
+  startIters_lines tables tables iters order [] res rfl
+    (fun k t t0 hk hk0 => by rw [hk] at hk0; cases hk0; rfl) (fun p hp => by simp at hp) h
+
+/-- A format object carries everything over. A table built with `fmt_obj=` from the format of a
+table `t` (fresh or printed: `WidthsFaithful` holds for every table made by the constructor or the
+setter and is kept by printing) with the same records, header and footer prints exactly what `t`
+prints — same fields, same columns, **both** limits. New `limits=` replace both limits, and
+`skip_columns=` removes exactly the named columns. -/
+theorem fmt_obj_same (t : Tbl) (hw : WidthsFaithful t) :
+    lines (mkTableFromFmt t.fmt t.records Option.none Option.none t.header (some t.footer)) = lines t ∧
+    ∀ recs lims skip hdr ftr,
+      let u := mkTableFromFmt t.fmt recs lims skip hdr ftr
+      u.fmt.fields = t.fmt.fields ∧
+      (u.fmt.limF, u.fmt.limL) = (match lims with | some l => l | Option.none => (t.fmt.limF, t.fmt.limL)) ∧
+      u.fmt.cols = (match skip with
+        | some names => (t.fmt.cols.map Col.reset).filter fun c => !names.contains c.field.name
+        | Option.none => t.fmt.cols.map Col.reset) ∧
+      u.records = recs ∧ u.header = hdr := by
+  constructor
+  · exact lines_of_same t _ hw rfl rfl rfl rfl (fun _ _ => rfl)
+  · intro recs lims skip hdr ftr
+    refine ⟨rfl, ?_, ?_, rfl, rfl⟩
+    · cases lims <;> rfl
+    · cases skip <;> rfl
+
+/-- Every option of the constructor is honoured. A table made by `PPTable(records, fmt=…, fields=…,
+limits=…, skip_columns=…, header=…, footer=…)` holds exactly the records and the header given, the
+footer given or `Total <n> records`, no negotiated widths, no skipped-lines flag; `limits=`, when
+given, are the limits (both of them, as given); no column of a field named in `skip_columns`
+remains. -/
+theorem ctor_options (a : CtorArgs) (t : Tbl) (h : mkTable a = .ok t) :
+    t.records = a.records ∧ t.header = a.header ∧
+    t.footer = (match a.footer with
+      | some f => f
+      | Option.none => Gen.C12.footerPrefix ++ natToDec a.records.length ++ Gen.C12.footerSuffix) ∧
+    t.fmt.anySkipped = Option.none ∧
+    (∀ l, a.limits = some l → (t.fmt.limF, t.fmt.limL) = l) ∧
+    (∀ names, a.skip = some names → ∀ c ∈ t.fmt.cols, c.field.name ∉ names) := by
+  unfold mkTable at h
+  simp only [bind_ok] at h
+  obtain ⟨p, _, fc, _, h⟩ := h
+  cases h
+  refine ⟨rfl, rfl, rfl, rfl, ?_, ?_⟩
+  · intro l hl; simp only [hl]
+  · intro names hn c hc
+    simp only [hn, List.mem_filter, Bool.not_eq_true', List.contains_eq_mem, decide_eq_false_iff_not] at hc
+    exact hc.2
+
+/-- where `WidthsFaithful` comes from: tables without negotiated widths have it, printing keeps it -/
+theorem widths_faithful (t : Tbl) :
+    ((∀ c ∈ t.fmt.cols, c.width = Option.none) → WidthsFaithful t) ∧
+    (∀ t' ls, WidthsFaithful t → render t = .ok (t', ls) → WidthsFaithful t') :=
+  ⟨widthsFaithful_of_fresh t, fun _ _ hw h => widthsFaithful_render h hw⟩
+
 /-! Non-vacuity: a concrete table with a break-by column, a too narrow column and limits `1:1`
 (three records, one break line: four lines > 1+1+1) is rendered by the kernel. -/
 
@@ -407,5 +479,25 @@ example : (render demo).map (fun x => x.2.map (fun l => String.ofList l.text)) =
 
 example : (render demo).map (fun x => (x.1.fmt.anySkipped, x.1.fmt.cols.map (·.width)))
     = .ok (some true, [some 2, some 4, some 16]) := by decide +kernel
+
+/-! The witness of the fixed defect 0b2b8bb (enum caches keyed by Python equality): enum `{1: one,
+2: two}`, rows `True`, `1`, `1.0`, `7.0`, `7`. In the model the cell is a function of the record's
+own value (`cell_content`), so every row shows its own `str(value)`: -/
+
+private def demoEnum : EnumType := ⟨[(Val.int 1, "one".toList), (Val.int 2, "two".toList)], Option.none⟩
+
+private def demoEnumField : Field := ⟨"a".toList, .enum demoEnum, 0, [Val.str "a".toList]⟩
+
+private def demoEnumTbl : Tbl :=
+  { records := [[Val.bool true], [Val.int 1], [Val.float "1.0".toList 1 1], [Val.float "7.0".toList 7 1], [Val.int 7]],
+    header := Option.none, footer := [],
+    fmt := { fields := [demoEnumField],
+             cols := [⟨demoEnumField, some "val".toList, false, 1, 999, Option.none⟩,
+                      ⟨demoEnumField, some "full".toList, false, 1, 999, Option.none⟩],
+             limF := Option.none, limL := Option.none, anySkipped := Option.none } }
+
+example : (render demoEnumTbl).map (fun x => x.2.map (fun l => String.ofList l.text)) = .ok
+    ["+---+---------+", "|a  |a        |", "+---+---------+", "|...|True one |", "|  1|1 one    |",
+     "|1.0|1.0 one  |", "|7.0|7.0 <???>|", "|  7|7 <???>  |", "+---+---------+"] := by decide +kernel
 
 end C12
